@@ -33,7 +33,7 @@ TAGKEY = {
 SMALL_BUFFERS = ("-DGD_VERIF_BUFFER_SIZE=64 -DGD_VERIF_BZIP_BUFFER_SIZE=64 -DGD_VERIF_LZMA_DATA_OUT=64 "
                  "-DGD_VERIF_LZMA_DATA_IN=32 -DGD_VERIF_LZMA_LOOKBACK=16")
 K_CACHENEG = "getdata/mplex-cache-seeded-before-sample-zero"
-K_LUTDESC = "getdata/linterp-descending-table-not-sorted"
+K_LUTDESC = "getdata/linterp-descending-table-not-sorted"      # repaired in /repo (389b7c6, b795cf9): not listed any more, a regression key
 TAGPRIO = ["alloczero", "mplexseek", "unaligned", "mplexrate", "rawpad"]
 
 
@@ -406,8 +406,8 @@ class Case:
                 rng.shuffle(order)
             self.files[tn] = "".join("%s %s\n" % (fmtd(xs[i]), fmtd(ys[i])) for i in order).encode()
             srt = sorted(range(rows), key=lambda i: xs[i])
-            # a table whose file lists strictly falling abscissae is kept as listed by the library
-            # (K_LUTDESC): such a case is also run with the same points listed ascending, see run_cases
+            # a table whose file lists strictly falling abscissae was kept as listed by the library before
+            # 389b7c6 (K_LUTDESC): such a case is also run with the same points listed ascending, see run_cases
             if all(xs[order[i]] > xs[order[i + 1]] for i in range(rows - 1)):
                 self.desc_tables = dict(getattr(self, "desc_tables", {}))
                 self.desc_tables[tn] = "".join("%s %s\n" % (fmtd(xs[i]), fmtd(ys[i])) for i in srt).encode()
@@ -797,6 +797,8 @@ def judge(chk, cases, stats, exe=None):
                 chk.violation("getdata/crash/sequence", "a sequence of gd_getdata calls crashes the process although no single call does\n" + c.format_text(),
                               {"kind": "crash", "format": c.format_text(), "queries": c.qs})
         # results that change when the rows of a LINTERP table are listed in another order
+        if hasattr(c, "rowdep"):
+            stats["row_order_calls_compared"] = stats.get("row_order_calls_compared", 0) + len(getattr(c, "res", []))
         for (qi, as_listed, ascending) in getattr(c, "rowdep", []):
             if qi is None:
                 key = "getdata/table-row-order/run-differs"
@@ -1148,8 +1150,8 @@ def witness_cases(rng):
            [("p", 9, 0, 4), ("x", 9, 2, 3)])
     c.files["i"] = b"".join(struct.pack("<i", v) for v in i8b)
     W.append(c)
-    # a LINTERP table listed with falling x is used as listed (K_LUTDESC; confirmed by run_cases/judge, which read
-    # the same points listed ascending as well)
+    # regression witness of K_LUTDESC (a LINTERP table listed with falling x was used as listed; repaired in
+    # /repo 389b7c6): run_cases reads the same points listed ascending as well and the two runs must agree
     a4 = [5, 15, 25, 35]
     c = mk(900011, "a RAW FLOAT64 1\nl LINTERP a table.txt\n", {"a": a4},
            ["raw 0 9 1 0 4 " + h(a4), "def a raw 0", "def l linterp a 3 " + " ".join("%x %x" % (dbits(x), dbits(y)) for x, y in [(10, 0), (20, 10), (30, 0)])],
